@@ -42,10 +42,15 @@ class ClassInfo:
         self.node = node
         self.name = node.name
         self.qname = module.name + ":" + (outer + "." if outer else "") + node.name
-        self.methods = {}
+        self.methods = {}  # name -> last def (Python semantics); property getters are kept when a setter follows
+        self.all_defs = []  # every def in the class body, in order (getter and setter of a property both appear)
         self.consts = {}   # class-level simple assignments name -> expr
         for s in node.body:
             if isinstance(s, (ast.FunctionDef, ast.AsyncFunctionDef)):
+                self.all_defs.append(s)
+                is_setter = any(isinstance(d, ast.Attribute) and d.attr in ("setter", "deleter") for d in s.decorator_list)
+                if is_setter and s.name in self.methods:
+                    continue
                 self.methods[s.name] = s
             elif isinstance(s, ast.Assign):
                 for t in s.targets:
